@@ -183,6 +183,8 @@ func TestCheck(t *testing.T) {
 		r.Require(r.Counter("gateway_applies") >= int64(r.N(30000, 1000000)) && r.Counter("limiter_applies") >= int64(r.N(20000, 600000)), "too few applications to the consumers")
 		r.Require(r.Counter("limiter_reports") >= int64(r.N(5000, 150000)), "too few honest reports reached the limiter")
 		r.Require(len(judged) >= 5, "fewer than 5 breaking classes could be demonstrated")
+		r.Require(r.Counter("limiter_lifecycle_premise_not_met")*20 <= r.Counter("limiter_applies"),
+			"the limiter-side premise (a new server starts from fresh state for the upstream) was not met for more than 5% of the applications: the limiter-side part is not judged")
 		for _, k := range []string{"lifecycle_gateway-create-beside-other", "lifecycle_gateway-redeliver", "lifecycle_gateway-delete", "lifecycle_gateway-recreate"} {
 			r.Require(r.Counter(k) >= int64(r.N(5000, 150000)), "life-cycle step hardly observed: "+k)
 		}
@@ -446,6 +448,10 @@ func explore(r *vkit.R, m *material, ab *admissionBed, judged map[string]bool) {
 				r.Inconclusive("harness: " + x.Detail + " on " + key)
 				continue
 			}
+			if x.Kind == "premise" {
+				r.Count("limiter_lifecycle_premise_not_met", 1)
+				continue
+			}
 			if !x.clean() {
 				bad = append(bad, x)
 			}
@@ -588,6 +594,10 @@ func exploreUpdate(r *vkit.R, m *material, ab *admissionBed, judged map[string]b
 			r.Inconclusive("harness: " + x.Detail)
 			continue
 		}
+		if x.Kind == "premise" {
+			r.Count("limiter_lifecycle_premise_not_met", 1)
+			continue
+		}
 		if !x.clean() {
 			bad = append(bad, fmt.Sprintf("%s: %s %s", x.Consumer, x.Kind, x.Detail))
 		}
@@ -599,7 +609,7 @@ func exploreUpdate(r *vkit.R, m *material, ab *admissionBed, judged map[string]b
 				change, cls, strings.Join(bad, " | ")), wit(outs, ""))
 	case len(bad) > 0:
 		for _, x := range outs {
-			if !x.clean() && x.Kind != "harness" {
+			if !x.clean() && x.judgeable() {
 				r.Violation("C16/accepted-unappliable/"+x.Consumer+"/"+x.Kind+"/"+outcomeFeature(x)+"/update="+change,
 					fmt.Sprintf("an UPDATE request (%s changed) passes admission but %s ends in %s: %s", change, x.Consumer, x.Kind, x.Detail), wit(outs, ""))
 			}
